@@ -27,8 +27,17 @@ EXCLUDED = {}
 
 @st.composite
 def c19_case(draw):
-    fam = draw(st.sampled_from(["plain", "plain", "shape", "occ", "affine", "cascade"]))
-    if fam == "plain":
+    fam = draw(st.sampled_from(["plain", "plain", "shape", "occ", "affine", "cascade", "deep-shape"]))
+    if fam == "deep-shape":
+        # one rank split by many directives (level numbers with two digits)
+        spec = draw(gen.spec_plain(max_terms=1, allow_take=False, allow_output_only=False, allow_rank0=False, max_vars=3))
+        e = spec["exprs"][0]
+        r = draw(st.sampled_from([v.upper() for v in gen.input_carried_vars(e)]))
+        n = draw(st.integers(8, 12))
+        spec["partitioning"] = {"Z": [[r, ["uniform_shape(%d)" % draw(st.integers(1, 3)) for _ in range(n)]]]}
+        spec["loop_order"] = {}
+        c = {"spec": spec}
+    elif fam == "plain":
         c = {"spec": draw(gen.spec_plain())}
     elif fam == "shape":
         c = draw(gen.case_shape(max_extent=4, allow_output_only=True))
